@@ -282,6 +282,9 @@ class Gen(object):
                 dt = 'float32'
             else:
                 dt = 'float64'
+            if r.random() < 0.06 and all(V.float_ok(v) and abs(v) < (1 << 62) for v in vals):
+                # an array of Python numbers (dtype=object): ints and floats side by side
+                return ['a', 'object', list(shape), pairs]
             if r.random() < 0.12:
                 # the same numbers in another memory layout (what a caller's slice or transpose looks like)
                 return ['a', dt, list(shape), pairs, r.choice(['F', 'S', 'S', 'R'])]
@@ -747,6 +750,12 @@ class Gen(object):
                 sp = ['f', sp[2], sp[3]]
             op['b'] = {'val': sp}
         op['a'] = self.cands().index(ia)
+        if 'F2' in self.p.faults and r.random() < 0.05:
+            # fault F2: a constant operand the library cannot convert (rejected while the operand is
+            # being prepared, i.e. in the operator layer, before the function wrappers are reached)
+            op['b'] = {'val': ['x', r.choice(['dict', 'set', 'str', 'str', 'ragged'])]}
+            op['route'] = r.choice(['op', 'op', 'rop', 'fn', 'np'])
+            return op
         if not judged and self.w.containers and 'containers' in self.p.groups and r.random() < 0.12:
             op['b'] = {'cont': r.randrange(len(self.w.containers))}
         k = r.random()
@@ -795,6 +804,29 @@ class Gen(object):
             else:
                 op['b'] = {'int': r.randrange(1 << min(ao.n_word, 40))}
                 op['reflected'] = r.random() < 0.3
+                if r.random() < 0.35:
+                    # constants of other kinds: negative, wider than the word, NumPy integers of the
+                    # storage types (int64 / uint64) and of narrow ones, 0-d arrays
+                    nw = max(1, min(ao.n_word, 60))
+                    mag = r.choice([r.randrange(1 << nw), (1 << nw) + r.randrange(1 << nw), (1 << (nw - 1)),
+                                    (1 << nw) - 1, r.randrange(1 << min(nw + 3, 62))])
+                    sign = r.choice([1, 1, -1])
+                    q = r.random()
+                    if q < 0.3:
+                        op['b'] = {'val': ['i', sign * mag]}
+                    elif q < 0.65:
+                        dt = r.choice(['int64', 'int64', 'uint64', 'int32', 'uint8', 'int8', 'int16'])
+                        info = np.iinfo(dt)
+                        v = sign * mag
+                        if not (info.min <= v <= info.max):
+                            v = r.choice([int(info.max), int(info.min), int(info.max) // 2 + 1])
+                        op['b'] = {'val': ['n', dt, v, 0]}
+                    elif q < 0.8:
+                        dt = r.choice(['int64', 'uint64'])
+                        v = mag if dt == 'uint64' else sign * mag
+                        op['b'] = {'val': ['a', dt, [], [[v, 0]]]}
+                    else:
+                        op['b'] = {'val': ['i', sign * ((1 << r.randint(62, 80)) + r.randrange(1 << 20))]}
         return op
 
     @staticmethod
@@ -1194,6 +1226,14 @@ class Gen(object):
             return self.g_new()
         return {'op': 'cb_attach', 'slot': k, 'n': self.rng.choice([1, 1, 2])}
 
+    def g_cb_replace(self):
+        r = self.rng
+        k, i = self.pick(lambda o: bool(o.callbacks))
+        if k is None:
+            return self.g_cb_attach()
+        return {'op': 'cb_replace', 'slot': k, 'how': r.choice(['list', 'list', 'inplace', 'slice']),
+                'k': r.randrange(3), 'equal': r.random() < 0.7}
+
     def g_cb_arm(self):
         r = self.rng
         k, i = self.pick(lambda o: bool(o.callbacks))
@@ -1351,6 +1391,7 @@ class Gen(object):
             if p.p_cb > 0:
                 add(3, self.g_cb_attach)
                 add(5, self.g_provoke)
+                add(2, self.g_cb_replace)
             if F & {'F3', 'F4', 'F8'}:
                 add(4, self.g_cb_arm)
             if F & {'F3', 'F8'}:
